@@ -607,16 +607,83 @@ def _prepass(ctx, pkg, fn):
     conv, x = rd[1], rd[3][0]
     subs, repl = [], []
     is_re = lambda o: o in (("global", "re"),)
+
+    def module_value(v):
+        """a module-level name bound once (`_pattern = re.compile(r"..")`) is the value it is bound to"""
+        if v[0] == "global":
+            defs = [st for st in mod.body if isinstance(st, ast.Assign) and any(isinstance(t, ast.Name) and t.id == v[1] for t in st.targets)]
+            stores = [n for n in ast.walk(mod) if isinstance(n, ast.Name) and n.id == v[1] and isinstance(n.ctx, (ast.Store, ast.Del))]
+            if len(defs) == 1 and len(stores) == 1:
+                from ..ratemodel import _ev_literal
+                return simp(_ev_literal(defs[0].value))
+        return v
+
+    def compiled(o):
+        """pattern text of `re.compile("..")` (written in place or bound to a module-level name); None otherwise"""
+        o = module_value(o)
+        if o[0] == "meth" and is_re(o[1]) and o[2] == "compile" and len(o[3]) >= 1 and not o[4] and o[3][0][0] == "const" and isinstance(o[3][0][1], str):
+            return o[3][0][1] if len(o[3]) == 1 else None
+        return None
+    const = lambda a: a[1] if a[0] == "const" and isinstance(a[1], str) else None
+
+    def replacement(a):
+        """the replacement argument of a substitution: a literal template, or a FUNCTION of the match -- then the template it is
+        equal to when it only re-assembles groups and literal text, else ("computed", what it does, re-prints a number?)"""
+        if const(a) is not None or a[0] not in ("global", "lambda", "attr"):
+            return const(a)
+        callee = None
+        if a[0] == "global":
+            callee = pkg.functions.get((KR, a[1]))
+        elif a[0] == "attr" and a[1] in (SELF, ("param", "cls")):
+            callee = cls_helper(a[2]) or pkg.resolve("KROMEReaction", a[2])[1]
+        if a[0] == "lambda":
+            m_, vals = (a[1][0] if len(a[1]) == 1 else None), [a[2]]
+        elif callee is not None:
+            ps = [p_.arg for p_ in callee.args.args]
+            if a[0] == "attr" and not any(ast.unparse(d) == "staticmethod" for d in callee.decorator_list):
+                ps = ps[1:]
+            m_ = ("param", ps[0]) if len(ps) == 1 else None
+            vals = [simp(f.value) for f in Flow(callee, KR).facts if f.kind == "return" and f.value is not None]
+        else:
+            return None
+        if m_ is None or len(vals) != 1:
+            return ("computed", show(a)[:60], False)
+
+        def template(v):
+            if v[0] == "const" and isinstance(v[1], str):
+                return v[1] if "\\" not in v[1] else None
+            if v[0] == "fstr":
+                ps_ = [template(p_) for p_ in v[1]]
+                return None if any(p_ is None for p_ in ps_) else "".join(ps_)
+            if v[0] == "fmt":
+                return template(v[1]) if v[2] is None and v[3] == -1 else None
+            g = None
+            if v[0] == "meth" and v[1] == m_ and v[2] == "group" and len(v[3]) == 1 and not v[4] and v[3][0][0] == "const":
+                g = v[3][0][1]
+            elif v[0] == "sub" and v[1] == m_ and v[2][0] == "const":
+                g = v[2][1]
+            elif v[0] == "item" and v[1] == ("meth", m_, "groups", (), ()) and isinstance(v[2], int) and v[2] >= 0:
+                g = v[2] + 1
+            return f"\\{g}" if type(g) is int and 0 < g < 10 else None
+        t = template(vals[0])
+        if t is not None:
+            return t
+        from ..valueflow import walk
+        reprints = any(isinstance(y, tuple) and ((len(y) == 4 and y[0] == "call" and y[1] in (("global", "float"), ("global", "int"), ("global", "round"), ("global", "repr"), ("global", "Decimal")))
+                                                 or (len(y) == 4 and y[0] == "fmt" and y[2] is not None)) for y in walk(vals[0]))
+        return ("computed", show(vals[0])[:80], reprints)
     for _ in range(40):
         if x == ("attr", SELF, "rate_string"):
             return conv, list(reversed(subs)), list(reversed(repl)), None
-        const = lambda a: a[1] if a[0] == "const" and isinstance(a[1], str) else None
         if x[0] == "meth" and x[2] == "sub" and is_re(x[1]) and len(x[3]) == 3 and not x[4]:
-            pat, rep = const(x[3][0]), const(x[3][1])
+            pat, rep = const(x[3][0]), replacement(x[3][1])
+            if pat is None:
+                pat = compiled(x[3][0])
             subs.append((pat, rep, line_of(pat, reads[0].line)))
             x = x[3][2]
-        elif x[0] == "meth" and x[2] == "sub" and x[1][0] == "meth" and is_re(x[1][1]) and x[1][2] == "compile" and len(x[1][3]) == 1 and not x[1][4] and len(x[3]) == 2 and not x[4]:
-            pat, rep = const(x[1][3][0]), const(x[3][0])
+        elif x[0] == "meth" and x[2] == "sub" and is_re(x[1]) is False and len(x[3]) == 2 and not x[4] and \
+                (compiled(x[1]) is not None or (module_value(x[1])[0] == "meth" and is_re(module_value(x[1])[1]) and module_value(x[1])[2] == "compile")):
+            pat, rep = compiled(x[1]), replacement(x[3][0])
             subs.append((pat, rep, line_of(pat, reads[0].line)))
             x = x[3][1]
         elif x[0] == "meth" and x[2] == "replace" and len(x[3]) == 2 and not x[4] and const(x[3][0]) is not None and const(x[3][1]) is not None:
@@ -640,6 +707,17 @@ def _r3(ctx, pkg):
     ctx.floor("R3", "regex rewritings", len(subs), 4, (KR, fn.lineno))
     seen_d = 0
     for pat, rep, line in subs:
+        if isinstance(rep, tuple) and rep[0] == "computed":
+            # the replacement is a function of the match that does more than re-assemble its groups
+            if rep[2]:
+                ctx.bad("R3", f"computed rewriting {pat!r}", (KR, line),
+                        f"the text matched by {pat!r} is not rewritten by a reviewed template but RE-GENERATED by a function ({rep[1]}): a number literal that goes through float()/"
+                        "a format specification comes out with another spelling -- integral-valued reals lose their decimal point (1.d0 -> 1, so 1.d0/2.d0 becomes the C integer "
+                        "division 1/2 = 0), long mantissas are rounded", expected=r"(\d\.?)d(\-?\d) -> \1e\2 (the literal's own digits, only the exponent letter changed)",
+                        found=f"{pat} -> {rep[1]}")
+            else:
+                ctx.unrec("R3", f"computed rewriting {pat!r}", (KR, line), f"the replacement of {pat!r} is computed by a function that is not understood: {rep[1]}")
+            continue
         if pat is None:
             ctx.unrec("R3", f"re.sub@{line}", (KR, line), "pattern is not a literal")
             continue
@@ -712,6 +790,12 @@ MUTANTS = [
     {"name": "d-exponent-drops-sign", "file": KR, "old": 'r"(\\d\\.?)d(\\-?\\d)", r"\\1e\\2"', "new": 'r"(\\d\\.?)d\\-?(\\d)", r"\\1e\\2"', "rules": ["R3"]},
     {"name": "expression-join-without-space", "file": CF, "old": '        expression = lambda self, e: " ".join(e)', "new": '        expression = lambda self, e: "".join(e[::-1])', "rules": ["R2"]},
     {"name": "listvar-keeps-parentheses", "file": CF, "old": '            .replace("(", "[")\n            .replace(")", "]")\n            .replace("n", "y")', "new": '            .replace("n", "y")', "rules": ["R2"]},
+    {"name": "listvar-translate-table-wrong-target", "file": CF, "old": '        listvar = (\n            lambda self, l: "".join(l)\n            .replace("(", "[")\n            .replace(")", "]")\n            .replace("n", "y")\n        )\n', "new": '        _lv = str.maketrans("()n", "[]x")\n\n        def listvar(self, l):\n            return "".join(l).translate(self._lv)\n', "rules": ["R2"]},
+    {"name": "d-exponent-reprinted-through-float", "edits": [
+        {"file": KR, "old": '        rate = re.sub(r"(\\d\\.?)d(\\-?\\d)", r"\\1e\\2", self.rate_string)\n', "new": '        rate = re.sub(r"(\\d+\\.?\\d*)d(\\-?\\d+)", lambda m: "%g" % float(m.group(1) + "e" + m.group(2)), self.rate_string)\n'}], "rules": ["R3"]},
+    {"name": "rewrite-table-with-unreviewed-row", "edits": [
+        {"file": KR, "old": '        rate = re.sub(r"(\\d\\.?)d(\\-?\\d)", r"\\1e\\2", self.rate_string)\n        rate = re.sub(r"(idx_.?)p", r"\\1II", rate)\n        rate = re.sub(r"(idx_.?)m", r"\\1M", rate)\n        rate = re.sub(r"(idx_.?)\\)", r"\\1I)", rate)\n', "new": '        rate = self.rate_string\n        for pattern, replacement in self._rewrites:\n            rate = re.sub(pattern, replacement, rate)\n'},
+        {"file": KR, "old": '    def rateexpr(self, grain: Grain = None) -> str:', "new": '    _rewrites = (\n        (r"(\\d\\.?)d(\\-?\\d)", r"\\1e\\2"),\n        (r"\\.0+e", r"e"),\n        (r"(idx_.?)p", r"\\1II"),\n        (r"(idx_.?)m", r"\\1M"),\n        (r"(idx_.?)\\)", r"\\1I)"),\n    )\n\n    def rateexpr(self, grain: Grain = None) -> str:'}], "rules": ["R3"]},
 ]
 BENIGN = [
     {"name": "grammar-assembled-from-fragments", "file": CF, "old": '    fgrammar = r"""\n        expression: multiply ((PLUS | MINUS) multiply)*\n',
@@ -725,4 +809,12 @@ BENIGN = [
     {"name": "c-listvar-stepwise-other-order", "file": CF, "old": '            .replace("(", "[")\n            .replace(")", "]")\n            .replace("n", "y")', "new": '            .replace("n", "y")\n            .replace(")", "]")\n            .replace("(", "[")'},
     {"name": "atom-as-def", "file": CF, "old": '        atom = lambda self, a: "".join(a)', "new": '        def atom(self, parts):\n            text = "".join(parts)\n            return text'},
     {"name": "callback-arg-renamed", "file": CF, "old": '        atom = lambda self, a: "".join(a)', "new": '        atom = lambda self, parts: "".join(parts)'},
+    {"name": "listvar-translate-table", "file": CF, "old": '        listvar = (\n            lambda self, l: "".join(l)\n            .replace("(", "[")\n            .replace(")", "]")\n            .replace("n", "y")\n        )\n', "new": '        _lv = str.maketrans("()n", "[]y")\n\n        def listvar(self, l):\n            return "".join(l).translate(self._lv)\n'},
+    {"name": "join-callbacks-share-one-method", "file": CF, "old": '        multiply = lambda self, m: "".join(m)\n        power = lambda self, p: "".join(p)\n        func = lambda self, f: "".join(f)\n', "new": '        def _concat(self, children):\n            return "".join(children)\n\n        multiply = power = func = _concat\n'},
+    {"name": "index-prefix-class-constant", "file": CF, "old": '        index = lambda self, i: f"IDX{\'\'.join(i)}"\n', "new": '        _index_prefix = "IDX"\n\n        def index(self, i):\n            return self._index_prefix + "".join(i)\n'},
+    {"name": "rewrites-as-class-table-and-staged-helpers", "edits": [
+        {"file": KR, "old": '        rate = re.sub(r"(\\d\\.?)d(\\-?\\d)", r"\\1e\\2", self.rate_string)\n        rate = re.sub(r"(idx_.?)p", r"\\1II", rate)\n        rate = re.sub(r"(idx_.?)m", r"\\1M", rate)\n        rate = re.sub(r"(idx_.?)\\)", r"\\1I)", rate)\n' + '        rate = rate.replace("Hnuclei", "nH")\n        self._kromerateconverter.read(rate)\n        rate = f"{self._kromerateconverter:c}"\n        return rate\n',
+         "new": '        return self._to_c(self._prepared(self.rate_string))\n\n    def _prepared(self, text):\n        for pattern, replacement in self._rewrites:\n            text = pattern.sub(replacement, text)\n        return text.replace("Hnuclei", "nH")\n\n    def _to_c(self, text):\n        self._kromerateconverter.read(text)\n        return format(self._kromerateconverter, "c")\n'},
+        {"file": KR, "old": '    def rateexpr(self, grain: Grain = None) -> str:', "new": '    _rewrites = (\n        (re.compile(r"(\\d\\.?)d(\\-?\\d)"), r"\\1e\\2"),\n        (re.compile(r"(idx_.?)p"), r"\\1II"),\n        (re.compile(r"(idx_.?)m"), r"\\1M"),\n        (re.compile(r"(idx_.?)\\)"), r"\\1I)"),\n    )\n\n    def rateexpr(self, grain: Grain = None) -> str:'}]},
+    {"name": "d-exponent-replacement-as-function-of-the-groups", "file": KR, "old": '        rate = re.sub(r"(\\d\\.?)d(\\-?\\d)", r"\\1e\\2", self.rate_string)\n', "new": '        rate = re.sub(r"(\\d\\.?)d(\\-?\\d)", lambda m: m.group(1) + "e" + m.group(2), self.rate_string)\n'},
 ]
